@@ -72,8 +72,8 @@ def run_totality(ctx, rule, modules, targets, axioms=None, depth=5, cap=64, ctor
             node.lineno = ln
             chain = sorted(e['chains'], key=len)[0] if e['chains'] else ''
             ctx.finding(rule, k, ci, node,
-                        f'{what} can raise: `{text}` ({kind}) is not proved safe -- ' + '; '.join(sorted(e['why']))[:200]
-                        + (f' [reached via {chain}]' if '>' in chain else ''),
+                        (f'{what} may never return: the loop `{text}` -- ' if kind == 'loop' else f'{what} can raise: `{text}` ({kind}) is not proved safe -- ')
+                        + '; '.join(sorted(e['why']))[:260] + (f' [reached via {chain}]' if '>' in chain else ''),
                         construct=text, where=f'{cls}.{fn}', extra={'call_chains': sorted(e['chains'])[:4]})
     for k, (iv, proof) in (expr_axioms or {}).items():
         if k in an.expr_axioms_used:
